@@ -153,6 +153,11 @@ func init() {
 		fr.i.sched.yield("verifYield")
 		return nil
 	}
+	harnessAPI["verifSchedOff"] = func(fr *frame, args []value) value {
+		// spend the remaining delay budget: the rest of the path runs under the default schedule
+		fr.i.sched.delays = fr.i.cfg.Delays
+		return nil
+	}
 	harnessAPI["verifSymbolic"] = func(fr *frame, args []value) value { return true }
 	harnessAPI["verifAnd"] = func(fr *frame, args []value) value { return fr.i.andV(args[0], args[1]) }
 	harnessAPI["verifOr"] = func(fr *frame, args []value) value { return fr.i.orV(args[0], args[1]) }
